@@ -104,7 +104,11 @@ func solvers(timeoutS int) []solverSpec {
 }
 
 func runSolver(s solverSpec, query string, timeoutS int) (string, string, int64) {
-	ctx, cancel := context.WithTimeout(context.Background(), time.Duration(timeoutS+2)*time.Second)
+	return runSolverCtx(context.Background(), s, query, timeoutS)
+}
+
+func runSolverCtx(parent context.Context, s solverSpec, query string, timeoutS int) (string, string, int64) {
+	ctx, cancel := context.WithTimeout(parent, time.Duration(timeoutS+2)*time.Second)
 	defer cancel()
 	cmd := exec.CommandContext(ctx, s.cmd[0], s.cmd[1:]...)
 	cmd.Stdin = strings.NewReader(s.hdr + query)
@@ -195,39 +199,88 @@ func (x *Exec) solveOne(o *Oblig, prelude string, cfg solveCfg) {
 	}
 	ss := solvers(cfg.timeoutS)
 	var outs []string
-	for i, s := range ss {
-		t := cfg.timeoutS
-		if i == 0 && !cfg.all && o.Kind == "goal" {
-			// first attempt short; the rest of the portfolio gets the full budget
-			t = cfg.timeoutS
-		}
-		r, out, ms := runSolver(s, q, t)
+	if o.Kind == "feasible" {
+		r, out, ms := runSolver(solvers(5)[0], q, 5)
 		o.Ms += ms
-		outs = append(outs, s.name+": "+strings.TrimSpace(out))
-		if o.Kind == "feasible" {
-			// feasible unless the hypotheses are contradictory
-			if r == "unsat" {
-				o.Status, o.Backend = "infeasible", s.name
-				if cfg.dumpDir != "" {
-					os.MkdirAll(cfg.dumpDir, 0o755)
-					os.WriteFile(filepath.Join(cfg.dumpDir, "INFEASIBLE_"+sanitizeFile(o.Name)+"__"+sanitizeFile(o.Path)+".smt2"), []byte(ss[0].hdr+q), 0o644)
-				}
-			} else {
-				o.Status, o.Backend = "feasible", s.name
+		_ = out
+		if r == "unsat" {
+			o.Status, o.Backend = "infeasible", "z3-new"
+			if cfg.dumpDir != "" {
+				os.MkdirAll(cfg.dumpDir, 0o755)
+				os.WriteFile(filepath.Join(cfg.dumpDir, "INFEASIBLE_"+sanitizeFile(o.Name)+"__"+sanitizeFile(o.Path)+".smt2"), []byte(ss[0].hdr+q), 0o644)
 			}
+		} else {
+			o.Status, o.Backend = "feasible", "z3-new"
+		}
+		return
+	}
+	if !cfg.all {
+		// stage 1: a short attempt with the fastest solver
+		r, out, ms := runSolver(solvers(2)[0], q, 2)
+		o.Ms += ms
+		if r == "unsat" {
+			o.Status, o.Backend = "proved", "z3-new"
 			return
 		}
-		if r == "unsat" {
-			o.Status, o.Backend = "proved", s.name
-			if !cfg.all {
-				return
-			}
-			continue
+		outs = append(outs, "z3-new(2s): "+strings.TrimSpace(out))
+		// stage 2: race the whole portfolio, first `unsat` wins
+		type res struct {
+			name, r, out string
+			ms       int64
 		}
-		if r == "sat" && cfg.all && o.Status == "proved" {
-			o.Status = "failed"
-			o.Output = "solver disagreement: " + strings.Join(outs, " | ")
-			break
+		ch := make(chan res, len(ss))
+		ctx, cancel := context.WithCancel(context.Background())
+		for _, s := range ss {
+			go func(s solverSpec) {
+				r, out, ms := runSolverCtx(ctx, s, q, cfg.timeoutS)
+				ch <- res{s.name, r, out, ms}
+			}(s)
+		}
+		for range ss {
+			rr := <-ch
+			if rr.r == "unsat" && o.Status != "proved" {
+				o.Status, o.Backend = "proved", rr.name
+				o.Ms += rr.ms
+				cancel()
+			} else if o.Status != "proved" {
+				outs = append(outs, rr.name+": "+strings.TrimSpace(rr.out))
+			}
+		}
+		cancel()
+	} else {
+		for _, s := range ss {
+			r, out, ms := runSolver(s, q, cfg.timeoutS)
+			o.Ms += ms
+			outs = append(outs, s.name+": "+strings.TrimSpace(out))
+			if r == "unsat" {
+				if o.Status == "" {
+					o.Status, o.Backend = "proved", s.name
+				}
+				continue
+			}
+			if r == "sat" && o.Status == "proved" {
+				o.Status = "failed"
+				o.Output = "solver disagreement: " + strings.Join(outs, " | ")
+				break
+			}
+		}
+	}
+	if o.Status != "proved" && !cfg.all && o.Kind == "goal" {
+		// stage 3: a proof found under any solver seed is a proof; retry the two z3 versions with other seeds
+		for _, sd := range []int{7, 23} {
+			for _, base := range solvers(cfg.timeoutS)[:2] {
+				sp := base
+				sp.hdr += fmt.Sprintf("(set-option :smt.random_seed %d)\n(set-option :sat.random_seed %d)\n", sd, sd)
+				r, _, ms := runSolver(sp, q, cfg.timeoutS)
+				o.Ms += ms
+				if r == "unsat" {
+					o.Status, o.Backend = "proved", fmt.Sprintf("%s(seed %d)", sp.name, sd)
+					break
+				}
+			}
+			if o.Status == "proved" {
+				break
+			}
 		}
 	}
 	if o.Status == "proved" {
